@@ -96,11 +96,76 @@ def partitions(stream, rnd, limit, exhaustive_upto=12):
     return outs
 
 
+_NEIGHBOURS = []
+
+
+def neighbours():
+    """Other connections alive in the same process, left in the middle of things, plus some traced traffic before anything
+    else happens: a connection is an object — what another object has buffered, half-read or half-reassembled, and what the
+    process has formatted or logged before, must not show in it.  Created once per process; the sessions of every
+    receive-side check then run next to them.  (On the library as it is they change nothing: all state is per instance.)"""
+    if _NEIGHBOURS:
+        return _NEIGHBOURS
+    import websocket
+    from simnet import srv_frame, SimSocket
+    # (1) warm-up with tracing on: unmasked frames of every opcode and of the lengths the checks use are received (and so
+    #     formatted for the trace lines), masked ones are sent — whatever the process remembers from that must not leak
+    with session.tracing(True):
+        ws = websocket.WebSocket()
+        # (pongs, data and close-sized frames first: the pongs the library writes for the pings come after them)
+        stream = b"".join(srv_frame(op, bytes([0x61 + (n % 26)]) * n) for op in (10, 2, 1, 9) for n in (0, 1, 2, 5, 20, 125)) + \
+            srv_frame(1, b"x" * 126) + srv_frame(2, b"y" * 300)
+        ws.sock = SimSocket([("chunk", stream)], tail="timeout")
+        ws.sock.timeout = 0.01
+        ws.connected = True
+        ws.set_mask_key(lambda n: b"\x5a" * n)
+        for _ in range(30):
+            try:
+                ws.recv_data(True)
+            except Exception:  # noqa
+                break
+        for n in (0, 1, 2, 5, 20, 125, 126, 300):
+            ws.send_binary(b"z" * n)
+        _NEIGHBOURS.append(ws)
+    # (2) a connection interrupted inside a fragmented message AND inside a frame: one text fragment taken, a second
+    #     frame's header and two payload bytes buffered, then silence
+    for fire in (True, False):
+        ws = websocket.WebSocket(fire_cont_frame=fire)
+        ws.sock = SimSocket([("chunk", srv_frame(1, b"Hello, ", fin=0) + srv_frame(0, b"wor", fin=0)[:4])], tail="timeout")
+        ws.sock.timeout = 0.01
+        ws.connected = True
+        for _ in range(2):
+            try:
+                ws.recv_data_frame(False)
+            except Exception:  # noqa
+                pass
+        _NEIGHBOURS.append(ws)
+    return _NEIGHBOURS
+
+
+def poke_neighbour():
+    """the half-finished neighbour gets one more fragment of ITS message (and is still not done)."""
+    ws = neighbours()[-1]
+    ws.sock.events[:] = [("chunk", srv_frame(0, b"wor", fin=0)[4:] + srv_frame(0, b"ld", fin=0)[:3])]
+    try:
+        ws.recv_data_frame(False)
+    except Exception:  # noqa
+        pass
+    ws.sock.events[:] = [("chunk", srv_frame(0, b"ld", fin=0)[3:] + srv_frame(0, b"wor", fin=0)[:4])]
+    try:
+        ws.recv_data_frame(False)
+    except Exception:  # noqa
+        pass
+
+
 def run_sessions(ctx, label, sessions, **kw):
     """sessions: list of (cfg, events, ops). Runs the real code and the model, diffs, returns
     [(impl_out, model_out, ws, sock)]."""
     lines, impls, objs = [], [], []
+    neighbours()
     for si, (cfg, events, ops) in enumerate(sessions):
+        if si % 40 == 0:
+            poke_neighbour()
         # every other session goes through the alternative spellings of the public API (next()/iteration, send_binary,
         # send_bytes, send_text); the model line is the same
         if si % 2:
